@@ -33,6 +33,7 @@ pub enum CompileErrorKind {
     TooManyUpvalues,
     TooManyGlobals,
     TooManyCallSites,
+    UnsupportedConstruct(&'static str),
     JumpTooFar,
     BreakOutsideLoop,
     ContinueOutsideLoop,
